@@ -359,8 +359,14 @@ def exec_op(state, inputs, op):
             with tempfile.TemporaryDirectory(prefix="j2m_c14_") as td:
                 # JSON text is YAML (flow style): the same document can be read through the YAML loader of the CLI
                 path = os.path.join(td, "in.yaml" if op.get("fmt") == "yaml" else "in.json")
-                with open(path, "w") as f:
-                    json.dump(inp["samples"], f)
+                if op.get("fmt") == "yaml":
+                    # non-BMP characters literally (YAML does not pair \\uD83D\\uDE00 escapes the way JSON does); an unpaired surrogate
+                    # cannot be written as UTF-8 and becomes a \\uXXXX escape, which both formats read as that surrogate
+                    with open(path, "w", encoding="utf-8", errors="backslashreplace") as f:
+                        json.dump(inp["samples"], f, ensure_ascii=False)
+                else:
+                    with open(path, "w") as f:
+                        json.dump(inp["samples"], f)
                 argv = ["-m", inp["name"], path, "-f", op["fw"], "-s", "flat" if op["flat"] else "nested"] + list(op["extra"])
                 if op.get("fmt") == "yaml":
                     argv += ["-i", "yaml"]
@@ -388,7 +394,9 @@ def exec_op(state, inputs, op):
                 if isinstance(first, ast.Expr) and isinstance(first.value, ast.Constant) and isinstance(first.value.value, str):
                     body = "\n".join(text.split("\n")[first.end_lineno:])
             except (SyntaxError, ValueError, IndexError):
-                pass
+                # text that does not parse (C03's subject): at least the time stamp must not take part in the comparison
+                import re
+                body = re.sub(r"(generated by json2python-models v\S+ at )[^\n]*", r"\1<t>", text, count=1)
             return {"text": body}
         if kind == "implicit":
             from json_to_models.generator import MetadataGenerator
